@@ -606,10 +606,103 @@ EXPLANATION = (
     "_decode_hex_char are executed symbolically and proved against the recursive Spec `unesc` taken from meta.pest's "
     "escape production (all strings, all indices)."
 )
+class ParseHexDigits(FunctionSpec):
+    """_parse_hex_digits(digits, token) for ALL strings: returns the base-16 value iff every character is a hex digit,
+    raises PestGrammarSyntaxError otherwise, raises nothing else, never returns a negative number.
+
+    The byte loop runs over digits.encode().  UTF-8 is used through two instance axioms (standard facts, assumed):
+    while the first k bytes are ASCII and equal the first k characters (ghost P(k)),
+      U1  byte k exists  =>  character k exists, and it is that byte when the character is ASCII, a byte >= 128 otherwise
+      U2  no byte k      =>  no character k
+    Spec: HV(k) / IH(k) = value / hex-ness of the first k characters, unfolded at the loop index; is_hex(d) = IH(len d),
+    hexval(d) = HV(len d) tie the opaque symbols the callers' contracts use to this definition."""
+
+    target = f"{UNESC}._parse_hex_digits"
+    raises = ("PestGrammarSyntaxError",)
+
+    def setup(self, run: Run):
+        d = run.fresh("digits", "str")
+        self.D = d.t
+        self.Bts = z3.Const("utf8_bytes", z3.SeqSort(z3.IntSort()))
+        self.HV = z3.Function("hex_prefix_value", z3.IntSort(), z3.IntSort())
+        self.IH = z3.Function("hex_prefix_ok", z3.IntSort(), z3.BoolSort())
+        self.P = z3.Function("utf8_prefix_ascii", z3.IntSort(), z3.BoolSort())
+        run.pre = {"d": d.t}
+        n = z3.Length(d.t)
+        run.assume(z3.And(self.HV(0) == 0, self.IH(0), self.P(0)))
+        run.assume(z3.And(is_hex(d.t) == self.IH(n), z3.Implies(self.IH(n), hexval(d.t) == self.HV(n))), "definition of is_hex / hexval by prefix recursion")
+        tok = run.heap.alloc("pest.grammar.tokens.Token", {}, fresh=False)
+        return None, [d, tok], {}
+
+    def digit_val(self, c):
+        return z3.If(z3.And(c >= 48, c <= 57), c - 48, z3.If(z3.And(c >= 65, c <= 70), c - 55, c - 87))
+
+    def is_digit(self, c):
+        return z3.Or(z3.And(c >= 48, c <= 57), z3.And(c >= 65, c <= 70), z3.And(c >= 97, c <= 102))
+
+    def unfold(self, k):
+        c = z3.StrToCode(z3.SubString(self.D, k, 1))
+        n = z3.Length(self.D)
+        b = self.Bts[k]
+        return [
+            z3.Implies(z3.And(0 <= k, k < n), z3.And(self.IH(k + 1) == z3.And(self.IH(k), self.is_digit(c)), self.HV(k + 1) == self.HV(k) * 16 + self.digit_val(c))),
+            z3.Implies(z3.And(0 <= k, k < n, z3.Not(self.IH(k + 1))), z3.Not(self.IH(n))),  # hex-ness of a prefix is monotone (unfolded forward)
+            self.P(k + 1) == z3.And(self.P(k), k < n, k < z3.Length(self.Bts), b == c, b < 128),
+            # UTF-8 instance axioms at k
+            z3.Implies(z3.And(self.P(k), k < z3.Length(self.Bts)), z3.And(k < n, z3.Implies(c < 128, b == c), z3.Implies(c >= 128, b >= 128))),
+            z3.Implies(z3.And(self.P(k), k == z3.Length(self.Bts)), k == n),
+            z3.And(b >= 0, b <= 255),
+        ]
+
+    def str_method(self, run: Run, s0: Any, name: str, args, kwargs, n):
+        if name == "encode" and not args and isinstance(s0, Sym) and s0.t.eq(self.D):
+            return SeqV(self.Bts, "int")
+        return NotImplemented
+
+    def binop(self, run: Run, op, a, b, n):
+        if isinstance(op, ast.LShift) and isinstance(b, int) and b >= 0 and run._kind(a) == "int":
+            run.oblige("shift.nonnegative", z(a, "int") >= 0)
+            return wrap(z(a, "int") * (1 << b), "int")
+        if isinstance(op, ast.BitOr) and run._kind(a) == "int" and run._kind(b) == "int":
+            x, y = z(a, "int"), z(b, "int")
+            # x | y = x + y when the bits of y (0 <= y < 16) are clear in x (x a multiple of 16)
+            run.oblige("or.disjoint_bits", z3.And(x >= 0, x % 16 == 0, y >= 0, y < 16))
+            return wrap(x + y, "int")
+        return NotImplemented
+
+    @property
+    def loops(self):
+        spec = self
+
+        def facts(run, g):
+            k = z(run.loop_idx) if run.loop_idx is not None else z3.IntVal(0)
+            return spec.unfold(k)
+
+        def inv(run, g):
+            k = z(run.loop_idx) if run.loop_idx is not None else z3.IntVal(0)
+            cp = z(run.frames[0].env["codepoint"], "int")
+            return [("prefix", z3.And(spec.P(k), spec.IH(k), cp == spec.HV(k), cp >= 0, k <= z3.Length(spec.D)))]
+
+        return {0: Loop(inv, facts=facts)}
+
+    def post(self, run: Run, pre: Any, out: Any) -> None:
+        d = pre["d"]
+        w = {"digits": d}
+        run.oblige("accepts_only_hex", is_hex(d), w)
+        run.oblige("result", z(out, "int") == hexval(d), w)
+        run.oblige("result.nonnegative", z(out, "int") >= 0, w)
+
+    def post_exc(self, run: Run, pre: Any, exc: PyExc) -> None:
+        if exc.name == "PestGrammarSyntaxError":
+            run.oblige("rejects_only_non_hex", z3.Not(is_hex(pre["d"])), {"digits": pre["d"]})
+            return
+        super().post_exc(run, pre, exc)
+
+
 TRUSTED = [
     "regex engine semantics of the shapes in pyvc/regexsem.py (class membership, escaped literal, flag I = ASCII other-case + U+212A/U+017F, \\p{..} opaque); patterns are read back with the standard library's regex parser",
     "pyvc executor's model of the Python subset; z3 5.1.0 / cvc5 1.0.3",
-    "_parse_hex_digits: contract `returns hexval(digits) iff is_hex(digits) else raises` is assumed of the byte-loop (checked by the bounded stand-in over all 1-4 digit strings and sampled longer ones); hexval/is_hex are opaque Spec symbols",
+    "_parse_hex_digits is proved for all strings (ParseHexDigits) given two instance axioms about UTF-8 (an ASCII character is its own single byte, any other character starts with a byte >= 128, bytes and characters run out together on an ASCII prefix); the call-site contract the other escape proofs use is that proved one",
     "the emitted control flow around the constants is the ordered choice proved in C01",
 ]
 ASSUMPTIONS = ["catalogue of instances (ranges, choices, literals) - each instance is decided for all code points"]
@@ -617,7 +710,7 @@ BOUNDED = ["catalogue of terminal instances (not symbolic in the range bounds)",
 
 
 def specs(tier):
-    return [RangeInstances(), AsciiBuiltins(), OptimizedClasses(), CIStrings(), UnicodeProps(), DecodeEscape(), DecodeHexChar(), UnescapeString()]
+    return [RangeInstances(), AsciiBuiltins(), OptimizedClasses(), CIStrings(), UnicodeProps(), ParseHexDigits(), DecodeEscape(), DecodeHexChar(), UnescapeString()]
 
 
 def escapes_check() -> dict:
@@ -632,7 +725,7 @@ def escapes_check() -> dict:
     n = 0
     hexd = "0123456789abcdefABCDEF"
     for ln in (1, 2, 3):
-        for t in itertools.product(hexd + "g", repeat=ln):
+        for t in itertools.product(hexd + "gG-+_ xé", repeat=ln):
             s = "".join(t)
             n += 1
             try:
@@ -655,7 +748,8 @@ def escapes_check() -> dict:
                 bad.append({"what": "unescape_string", "in": src, "got": got, "want": want})
         except Exception as e:  # noqa: BLE001
             bad.append({"what": f"unescape_string raised {type(e).__name__}", "in": src})
-    for src in (r"\x4", r"\xZZ", r"\u{110000}", r"\u{4}", r"\u{1234567}", r"\u41", "\\", r"\q", r"\u{41", r"\u"):
+    for src in (r"\x4", r"\xZZ", r"\u{110000}", r"\u{4}", r"\u{1234567}", r"\u41", "\\", r"\q", r"\u{41", r"\u", r"\u{-1}", r"\u{-00041}", r"\x-1", r"\x-f", r"\u{+41}",
+                r"\u{0x41}", r"\u{4_1}", r"\x 1", r"\x1 ", r"\u{ 41}", r"\u{é1}"):
         n += 1
         try:
             unescape_string(src, tok)
@@ -665,7 +759,7 @@ def escapes_check() -> dict:
         except Exception as e:  # noqa: BLE001
             bad.append({"what": f"malformed escape raised {type(e).__name__}", "in": src})
     return {"name": "c12-escapes", "kind": "bounded stand-in (run-time check of the real unescape functions)", "evaluations": n,
-            "bound": "all strings over hex digits + 'g' up to length 3; 26 escape forms", "violation": bool(bad), "details": bad[:5]}
+            "bound": "all strings over hex digits + {g,G,-,+,_,space,x,é} up to length 3; 37 escape forms", "violation": bool(bad), "details": bad[:5]}
 
 
 def codepoint_sweep(tier: str) -> dict:
